@@ -33,6 +33,9 @@ def run(prog, tier):
     check_opb(R, prog)
     check_latex(R, prog)
     check_format_select(R, prog)
+    from .c06 import check_write_through
+    check_write_through(R, prog, P, [("cnfgen.formula.cnfio", "CNFio", ("to_opb", "to_latex", "to_file")),
+                                     ("cnfgen.formula.opbio", "OPBio", ("to_opb", "to_latex", "to_file"))])
     return R
 
 
